@@ -86,6 +86,9 @@ CustOps ==
        {[op |-> "cust_add", name |-> nm, bytes |-> "aa0" \o ToString(nb)] : nm \in {"c0", "new", "dylink.0"}}
   \cup {[op |-> "cust_del", id |-> i] : i \in 0 .. 3}
   \cup {[op |-> "cust_mod", id |-> i, bytes |-> "bb0" \o ToString(nb)] : i \in 0 .. 3}
+  \* addressed by name (get_id): several sections may share a name; the lookup designates the first of them
+  \cup {[op |-> "cust_del_name", name |-> nm] : nm \in {"c0", "new", "none"}}
+  \cup {[op |-> "cust_mod_name", name |-> nm, bytes |-> "cc0" \o ToString(nb)] : nm \in {"c0", "new"}}
 
 IsRefTyOp(o) == \/ (o.kind = "func" /\ Len(o.params) = 1 /\ o.params[1] \in RefTys)
                 \/ (o.kind = "struct" /\ Len(o.fields) = 1 /\ o.fields[1][1] \in RefTys)
